@@ -205,10 +205,14 @@ struct Shared {
     read_plan: Mutex<VecDeque<ReadStep>>,
     answer: bool,
     refuse: Mutex<usize>,
+    connect_delay_ms: u64,
 }
 
 impl Shared {
     fn connect(&self) -> GneissResult<Link> {
+        if self.connect_delay_ms > 0 {
+            std::thread::sleep(Duration::from_millis(self.connect_delay_ms));      // a transport that takes a while to come up
+        }
         {
             let mut refuse = self.refuse.lock().unwrap();
             if *refuse > 0 {
@@ -297,6 +301,7 @@ pub fn run(head: &str, steps: &str) -> Result<String, String> {
     let shared = Arc::new(Shared {
         links: Mutex::new(Vec::new()), v5, write_plan: Mutex::new(wplan), read_plan: Mutex::new(rplan),
         answer: get("answer").unwrap_or("1") != "0", refuse: Mutex::new(get("refuse").and_then(|x| x.parse().ok()).unwrap_or(0)),
+        connect_delay_ms: get("cdelay").and_then(|x| x.parse().ok()).unwrap_or(0),
     });
     // durations in ms; `max` is the largest value the builders accept (Duration::MAX)
     let dur = |key: &str, default: u64| -> Duration {
@@ -346,7 +351,7 @@ pub fn run(head: &str, steps: &str) -> Result<String, String> {
     } else {
         let s2 = shared.clone();
         let mut tb = ThreadedOptions::builder();
-        tb.with_idle_service_sleep(Duration::from_millis(1));
+        tb.with_idle_service_sleep(Duration::from_millis(get("idle").and_then(|x| x.parse().ok()).unwrap_or(1)));
         let client = new_threaded_client(client_options, connect_options, tb.build(), Arc::new(move || s2.connect()));
         Handle::Threaded(client)
     };
